@@ -231,42 +231,48 @@ func runC19_5(c *Ctx) {
 	newStatus := p.Global(Root, "NewStatus")
 	badGateway := p.ConstInt(Root, "CodeBadGateway")
 	for _, fn := range []*ssa.Function{callFn, pushFn} {
-		lo, hi := false, false
-		for _, b := range fn.Blocks {
-			ifi, isIf := b.Instrs[len(b.Instrs)-1].(*ssa.If)
-			if !isIf {
-				continue
-			}
-			bo, isB := ifi.Cond.(*ssa.BinOp)
-			if !isB {
-				continue
-			}
-			call, isC := bo.X.(*ssa.Call)
-			k, okc := ConstIntOf(bo.Y)
-			if !isC || !okc || CalleeObj(call) != codeM {
-				continue
-			}
-			if bo.Op == token.LSS && k == 200 {
-				hi = true
-			}
-			if bo.Op == token.GTR && k == 99 {
-				lo = true
+		// the function that builds the replacement: the handler itself or a helper of the package it calls
+		host := fn
+		var fresh *ssa.Call
+		find := func(f *ssa.Function) *ssa.Call {
+			var out *ssa.Call
+			Instrs(f, func(i ssa.Instruction) {
+				call, isC := i.(*ssa.Call)
+				if !isC || !IsLoadOfGlobal(call.Call.Value, newStatus) {
+					return
+				}
+				if k, okc := ConstIntOf(call.Call.Args[0]); okc && k == badGateway {
+					out = call
+				}
+			})
+			return out
+		}
+		if fresh = find(fn); fresh == nil {
+			for _, call := range AllCalls(fn) {
+				if sc := call.Common().StaticCallee(); sc != nil && sc.Pkg == fn.Pkg && len(sc.Blocks) > 0 {
+					if b := find(sc); b != nil {
+						host, fresh = sc, b
+					}
+				}
 			}
 		}
-		c.fact("constants")
-		c.Check(lo && hi, "proxy."+fn.Name()+" maps the whole 1xx class", p.Pos(fn.Pos()), "99 < code < 200 => Bad Gateway", "proxy."+fn.Name()+" no longer maps every connection-class status (codes 100..199: wrong conn, closed, write failed, dial failed) to Bad Gateway: some backend connection failures reach the caller with the backend-side code")
-		// the replacement is a new status with the 502 constants and the original cause
-		fresh := false
-		Instrs(fn, func(i ssa.Instruction) {
-			call, isC := i.(*ssa.Call)
-			if !isC || !IsLoadOfGlobal(call.Call.Value, newStatus) {
-				return
+		// the codes for which the replacement is built: all comparisons of Code() with constants whose edge dominates it
+		rng := ival{-satV, satV}
+		if fresh != nil {
+			eng := &linEngine{p: p, fn: host, at: fresh.Block(), slack: map[ssa.Value]bool{}, busy: map[ssa.Value]bool{}}
+			for _, cc := range CallsTo(host, codeM) {
+				iv := eng.guards(cc.(ssa.Value), ival{-satV, satV})
+				if iv.lo > rng.lo {
+					rng.lo = iv.lo
+				}
+				if iv.hi < rng.hi {
+					rng.hi = iv.hi
+				}
 			}
-			if k, okc := ConstIntOf(call.Call.Args[0]); okc && k == badGateway {
-				fresh = true
-			}
-		})
-		c.Check(fresh, "proxy."+fn.Name()+" builds a new Bad Gateway status", p.Pos(fn.Pos()), "NewStatus(CodeBadGateway, ...)", "proxy."+fn.Name()+" does not build a new 502 status for the rewritten class")
+		}
+		c.fact("intervals")
+		c.Check(fresh != nil && rng.lo == 100 && rng.hi == 199, "proxy."+fn.Name()+" maps the whole 1xx class", p.Pos(fn.Pos()), "99 < code < 200 => Bad Gateway", fmt.Sprintf("proxy.%s no longer maps exactly the connection-class statuses (codes 100..199: wrong conn, closed, write failed, dial failed) to Bad Gateway (mapped range [%d,%d]): some backend connection failures reach the caller with the backend-side code", fn.Name(), rng.lo, rng.hi))
+		c.Check(fresh != nil, "proxy."+fn.Name()+" builds a new Bad Gateway status", p.Pos(fn.Pos()), "NewStatus(CodeBadGateway, ...)", "proxy."+fn.Name()+" does not build a new 502 status for the rewritten class")
 	}
 }
 
